@@ -3,6 +3,31 @@
 import json
 
 CHECKS = {
+ "C01": dict(level="fault_enumeration", engine="E3",
+   technique="exhaustive fault enumeration on the real Noise handshake (both roles as driver tasks over the scripted carrier): every byte offset x mask, every truncation offset, cross-session substitutions, a snow-based rogue peer with 34 forged payload variants, dialed-peer expectations, fragmentations with bounded Pending injection",
+   text="Every byte offset (incl. length prefixes) of the three handshake messages is corrupted with 9 (quick) / 255 (thorough) masks, every truncation offset is cut, every message is substituted by the same-index or another message of a second recorded session, and a rogue peer holding a VALID Noise session presents 34 identity-payload variants (missing/forged/foreign-session/no-domain/short/long signatures, unknown or truncated keys, non-canonical key encodings, extra fields) in both roles; the dialed-peer expectation {None, actual, other} is exercised through the real TcpConnection::open_connection over loopback sockets; the honest stream is fragmented (1/2/3/7-byte reads, a split at every offset, partial writes, small windows, <=2 injected Pendings). Oracle: Ok(P) only when P is the hash of the identity key the other side proved, the side that consumed altered bytes errs, never both Ok after any alteration, outcome independent of fragmentation.",
+   note="Noise DH keys are random per run (verdicts depend only on accept/reject and key equality); identity keys from fixed seeds. A stalled handshake is resolved by advancing virtual time past the handshake timeout. Deviation bound completed: 2 injected Pendings (pairs sampled every 101st for the byte-at-a-time base in quick, all in thorough). Defect found and repaired (peer id derived from raw key bytes).",
+   design="§4 C01"),
+ "C02": dict(level="fault_enumeration", engine="E3",
+   technique="bounded exhaustive enumeration of write-size sequences x reader buffers x buffering configurations x carrier behaviours (chunking, frame-boundary splits, partial writes, windows, <=2 injected Pendings) and of ciphertext attacks on the real NoiseSocket pair; byte-FIFO reference",
+   text="Real NoiseSockets from an honest handshake transfer deterministic plaintext: all boundary sizes (1..200000 incl. 65518..65521, 131040/131041), pairs and triples, 9 reader buffer sizes, 9 (read-ahead, write-buffer) settings, both flush disciplines, raw single writes, both roles; for 9 representative sequences the full carrier grid (read chunk 1/2/3/65537, a split 0-3 bytes into and 1 byte before the end of every frame, write acceptance 1 / n-1, windows inf/65536/10) and every single and (subset / all) pair of spurious Pending positions. Attacks on recorded ciphertext of the same session: bit flips in each length byte, first/middle/last ciphertext byte and each tag byte, drop, duplicate, late replay, swap, truncation at 7 position classes. Oracle: reader output equals the FIFO of accepted bytes; attacked runs deliver only an authentic in-order prefix followed by an error, never an altered byte.",
+   note="End of stream is accepted as either Ok(0) or Err(UnexpectedEof) after the last byte (statement silent). Truncation exactly at a frame boundary followed by close cannot be detected by Noise itself and is accepted as clean end. A further poll_read after the socket already returned the required error panics inside NoiseSocket: outside the statement, counted as an observation. Defect found and repaired (frame limit 65520).",
+   design="§4 C02"),
+ "C03": dict(level="exploration", engine="E3",
+   technique="exhaustive enumeration of dialer lists x listener sets x versions x pairings with the libp2p reference implementation x carriers x payloads, two driver tasks per case; message-based variant enumerated over groupings",
+   text="All 40 ordered dialer lists of length <=3 over 4 names x all 16 listener subsets in two listener orders (+ long 100/126/127/300-byte names), V1 and V1Lazy, litep2p<->litep2p and litep2p against multistream-select 0.13 in either role, whole / 1-byte / partial-write carriers, both task poll orders, a short read ending at every offset, every single (and every pair, subset in quick) injected Pending, payloads none/1 B/3 B/70 KiB written immediately by either side. Oracle: both sides terminate, agree on the dialer's first supported name or both fail, bytes after negotiation arrive exactly, nothing is swallowed. Message-based (WebRTC) negotiation over main + <=2 fallbacks x listener subsets x header/protocol groupings x trailing bytes, forged confirmations of unproposed names, and the fallback-name -> (main, Some(fallback)) mapping through the real ProtocolSet::report_substream_open.",
+   note="Reference = multistream-select 0.13 from the cargo cache. Production TCP code only uses Version::V1. Known finding F9 (trailing application bytes dropped by the message-based dialer).",
+   design="§4 C03"),
+ "C04": dict(level="exploration", engine="E3",
+   technique="bounded exhaustive enumeration of codecs x message-size sequences x send APIs x reader patterns x carrier behaviours on real TCP-flavoured substreams over real yamux over the scripted carrier; raw malformed length prefixes fed to the receiver",
+   text="Real litep2p Substreams (the TCP flavour, over yamux 0.13 over the scripted duplex) for Identity(1,10,1023,1024,1025,4096) and UnsignedVarint(0,1,127,128,300,16384,70000,None): singletons over the full size set and all sequences of length <=3 over reduced sets incl. sizes beyond the 256 KiB yamux window, through send / feed+flush / send_framed, with an eager reader, a reader that starts only after the writer reported completion (writer no longer polled) and a pausing reader; fragmented carriers, every single and pair of injected Pending positions. Oracle: received == accepted sends, oversize refused at the sender, completion implies nothing queued in the sink, no hang, no panic. Receiver: every varint prefix of <=3 bytes over {00,7f,80,ff} plus selected 4..10-byte shapes (overlong, overflowing, > max, == max, 2^32, 2^63) x {no payload, short payload, EOF} against a reference parser.",
+   note="What the receiver delivers after it has reported a framing error is not constrained by the statement and not compared. Claimed lengths between 2^24 and 2^63 under UnsignedVarint(None) would abort the process on allocation and are not enumerated. Four defects found and repaired.",
+   design="§4 C04"),
+ "C19": dict(level="exploration", engine="E3",
+   technique="exhaustive enumeration of a structured neighbourhood of valid encodings (every truncation, every single-byte substitution from 6 values, every splice of corpus pairs, extreme varints at every length-prefix position with and without re-encoded enclosing lengths, all byte strings of length <=2) through every network-facing decoder, with a per-thread counting allocator",
+   text="Twelve decoders (multistream Message, message-based listener/dialer negotiation, the two stream negotiation futures fed canned streams, KademliaMessage::from_bytes for several replication factors, RemotePublicKey, PeerId, the Noise handshake payload verifier, Bitswap message/prefix/CID parsing, the Identify schema) are run on every input of the neighbourhood built from litep2p's own encoders' output: no panic, termination (async ones under the deterministic driver; 30 s watchdog for sync ones), peak bytes allocated by the call <= configured limit + 16*|input| + 64 KiB, and encode->decode round trips for the whole corpus.",
+   note="Bounded structured neighbourhood, not all byte strings. Identify's and Bitswap's async receive paths are not run here (only their decoding steps); substream length prefixes are C04's. One defect found and repaired (per-peer preallocation).",
+   design="§4 C19"),
  "C05": dict(level="model_checking", engine="E1",
    technique="explicit-state BFS over stimulus histories of a real Litep2p (real TransportManager/PeerState/limits/address store) over a scripted transport; per-attempt outcome ledger, silence check, quiescent re-dial probes",
    text="All histories up to depth 5 (quick) / 7 (thorough) of dial, dial_address, add_known_address, protocol-side dial, every feasible transport answer for every outstanding call (opened with/without partial errors, open failure, established, dial failure), inbound connections from the same peers, accept completion, closures and a local protocol exiting, under four limit configurations, on the real node. Ledger by connection id: each started attempt gets exactly one of established / failure naming dialed addresses / superseded-by-accepted-connection; an attempt with no network activity left and no outcome is silence; at every new state a throw-away rebuild probes that an idle, unconnected peer with addresses is really dialed again.",
